@@ -485,6 +485,9 @@ def main(run):
     from . import reports
     run.explore('report-ebal', [c_ for c_ in reports.cases_ebal(run.tier) if len(c_['layout'].split()) > 1],
                 reports.run_ebal, budget_s=300)
+    # per-assembly tables (AssemblyTables) of cores: each file holds the values of the assembly it is named after
+    run.explore('report-asmtables', [c_ for c_ in reports.cases_asmtables(run.tier) if len(c_['layout'].split()) > 1],
+                reports.run_asmtables_C06, budget_s=600)
 
 
 def replay(body):
